@@ -69,7 +69,7 @@ AcsOn(t) == t.font # 0 \/ (t.sh = 0 /\ t.g0 = 48) \/ (t.sh = 1 /\ t.g1 = 48)
 
 \* a zero-width character joins the glyph printed last (t.lp); cursor motion forgets it
 Combine(t, cp) ==
-    IF t.lp = 0 \/ t.lp > Len(t.g) THEN [t EXCEPT !.bad = @ \cup {"combining_without_base"}]
+    IF t.lp = 0 \/ t.lp > Len(t.g) THEN [t EXCEPT !.bad = @ \cup {<<"combining_without_base", <<>>>>}]
     ELSE [t EXCEPT !.g[t.lp] = [@ EXCEPT !.comb = Append(@, cp), !.st = t.stamp]]
 
 PrintCp(t, cp) ==
@@ -86,7 +86,7 @@ PrintCp(t, cp) ==
     IN IF w = 2 /\ x + 1 >= t.W
        THEN \* no room (auto-wrap off, or a one-column screen): the glyph is clipped
             [t EXCEPT !.g = Put(t.g, i, [Garbage EXCEPT !.st = t.stamp]),
-                      !.bad = @ \cup {"wide_clipped"}, !.cx = x, !.cy = y, !.lp = i,
+                      !.bad = @ \cup {<<"wide_clipped", <<>>>>}, !.cx = x, !.cy = y, !.lp = i,
                       !.pend = t.aw, !.scrolled = @ \/ scr]
        ELSE LET g1 == Put(t.g, i, cell)
                 g2 == IF w = 2 THEN Put(g1, i + 1, [cell EXCEPT !.w = 0, !.cp = 0]) ELSE g1
@@ -180,7 +180,7 @@ Sgr(t, ps, k) ==
     ELSE LET n == Def(ps[k][1], 0) IN
       IF n \in {38, 48, 58} THEN
            LET ec == ExtColour(ps, k)
-               t2 == IF ec[1][1] = 5 THEN [t EXCEPT !.bad = @ \cup {"sgr_colour"}]
+               t2 == IF ec[1][1] = 5 THEN [t EXCEPT !.bad = @ \cup {<<"sgr_colour", <<>>>>}]
                      ELSE IF n = 38 THEN [t EXCEPT !.fg = ec[1]]
                      ELSE IF n = 48 THEN [t EXCEPT !.bg = ec[1]]
                      ELSE [t EXCEPT !.uc = ec[1]]
@@ -236,7 +236,7 @@ SetDecMode(t, n, on) ==
 RECURSIVE DecModes(_, _, _, _)
 DecModes(t, ps, k, on) ==
     IF k > Len(ps) THEN t
-    ELSE IF ps[k][1] < 0 THEN [t EXCEPT !.bad = @ \cup {"mode_param"}]
+    ELSE IF ps[k][1] < 0 THEN [t EXCEPT !.bad = @ \cup {<<"mode_param", <<>>>>}]
     ELSE DecModes(SetDecMode(t, ps[k][1], on), ps, k + 1, on)
 
 ---------------------------------------------------------------------------
@@ -258,7 +258,7 @@ DoCsi(t0, fin) ==
         numeric == \A k \in 1..Len(ps) : \A j \in 1..Len(ps[k]) : ps[k][j] # -2
         unk == [t EXCEPT !.unk = @ \cup {<<"csi", c.priv, c.par, c.int, fin>>}]
     IN
-    IF ~c.okp \/ ~numeric THEN [t EXCEPT !.bad = @ \cup {"csi_param"}]
+    IF ~c.okp \/ ~numeric THEN [t EXCEPT !.bad = @ \cup {<<"csi_param", <<>>>>}]
     ELSE IF c.priv = 0 /\ c.int = <<>> THEN
         CASE fin \in {72, 102} -> GotoXY(t, P1(ps, 2, 1) - 1, P1(ps, 1, 1) - 1)           \* H f
           [] fin = 65 -> GotoXY(t, t.cx, t.cy - P1(ps, 1, 1))                             \* A
@@ -318,7 +318,7 @@ DoOsc(t0) ==
         rest == IF k = 0 THEN <<>> ELSE SubSeq(b, k + 1, Len(b))
     IN CASE n \in {0, 2} -> [t EXCEPT !.title = rest]
          [] n = 8 -> LET j == FirstSep(rest, 59, 1) IN
-                     IF j = 0 THEN [t EXCEPT !.bad = @ \cup {"osc8"}]
+                     IF j = 0 THEN [t EXCEPT !.bad = @ \cup {<<"osc8", <<>>>>}]
                      ELSE LET id == SubSeq(rest, 1, j - 1)  url == SubSeq(rest, j + 1, Len(rest))
                           IN [t EXCEPT !.link = IF url = <<>> THEN <<>> ELSE <<url, id>>]
          [] n = 12 -> IF Len(rest) = 7 /\ rest[1] = 35 /\ \A i \in 2..7 : HexVal(rest[i]) >= 0
@@ -338,7 +338,7 @@ DoC0(t, b) ==
       [] b = 13 -> [t EXCEPT !.cx = 0, !.pend = FALSE, !.lp = 0]
       [] b = 14 -> [t EXCEPT !.sh = 1]
       [] b = 15 -> [t EXCEPT !.sh = 0]
-      [] OTHER  -> [t EXCEPT !.bad = @ \cup {<<"c0", b>>}]
+      [] OTHER  -> [t EXCEPT !.bad = @ \cup {<<"c0", <<b>>>>}]
 
 \* validity of a completed UTF-8 scalar: not overlong, not a surrogate, in range, not a C1 control
 Utf8Ok(cp, len) ==
@@ -359,56 +359,56 @@ Step(t, b) ==
     CASE t.lx = "gnd" ->
            IF b = ESC THEN [t EXCEPT !.lx = "esc", !.buf = <<>>]
            ELSE IF b < 32 THEN (IF t.font # 0 /\ b \in t.q.fontctl THEN PrintCp(t, b) ELSE DoC0(t, b))
-           ELSE IF b = 127 THEN [t EXCEPT !.bad = @ \cup {"del"}]
+           ELSE IF b = 127 THEN [t EXCEPT !.bad = @ \cup {<<"del", <<>>>>}]
            ELSE IF b < 128 THEN PrintCp(t, b)
            ELSE IF t.cs = "utf8" THEN
                   IF b >= 194 /\ b <= 223 THEN [t EXCEPT !.lx = "u8", !.need = 1, !.acc = b - 192, !.buf = <<2>>]
                   ELSE IF b >= 224 /\ b <= 239 THEN [t EXCEPT !.lx = "u8", !.need = 2, !.acc = b - 224, !.buf = <<3>>]
                   ELSE IF b >= 240 /\ b <= 244 THEN [t EXCEPT !.lx = "u8", !.need = 3, !.acc = b - 240, !.buf = <<4>>]
-                  ELSE [t EXCEPT !.bad = @ \cup {"utf8"}]
+                  ELSE [t EXCEPT !.bad = @ \cup {<<"utf8", <<>>>>}]
            ELSE IF t.font # 0 THEN PrintCp(t, b)      \* alternate font (CP437-style ACS): the byte is the glyph
            ELSE MbStep(t, b)
       [] t.lx = "mb" -> IF b < 128 /\ b < 64 THEN Bad(t, <<"undecodable", Append(t.buf, b)>>) ELSE MbStep(t, b)
       [] t.lx = "u8" ->
-           IF b < 128 \/ b > 191 THEN Bad(t, "utf8")
+           IF b < 128 \/ b > 191 THEN Bad(t, <<"utf8", <<>>>>)
            ELSE LET acc == t.acc * 64 + (b - 128) IN
                 IF t.need > 1 THEN [t EXCEPT !.need = @ - 1, !.acc = acc]
                 ELSE LET t2 == [t EXCEPT !.lx = "gnd", !.buf = <<>>, !.need = 0] IN
-                     IF ~Utf8Ok(acc, t.buf[1]) THEN [t2 EXCEPT !.bad = @ \cup {"utf8"}]
-                     ELSE IF acc < 160 THEN [t2 EXCEPT !.bad = @ \cup {<<"c1", acc>>}]
+                     IF ~Utf8Ok(acc, t.buf[1]) THEN [t2 EXCEPT !.bad = @ \cup {<<"utf8", <<>>>>}]
+                     ELSE IF acc < 160 THEN [t2 EXCEPT !.bad = @ \cup {<<"c1", <<acc>>>>}]
                      ELSE PrintCp(t2, acc)
       [] t.lx = "esc" ->
            IF b = 91 THEN [t EXCEPT !.lx = "csi", !.buf = <<>>]
            ELSE IF b = 93 THEN [t EXCEPT !.lx = "osc", !.buf = <<>>]
-           ELSE IF b \in {80, 88, 94, 95} THEN Bad(t, "string_sequence")
+           ELSE IF b \in {80, 88, 94, 95} THEN Bad(t, <<"string_sequence", <<>>>>)
            ELSE IF b >= 32 /\ b <= 47 THEN [t EXCEPT !.lx = "escI", !.buf = <<b>>]
            ELSE IF b >= 48 /\ b <= 126 THEN DoEsc(t, b)
-           ELSE Bad(t, "esc_abort")
+           ELSE Bad(t, <<"esc_abort", <<>>>>)
       [] t.lx = "escI" ->
            IF b >= 32 /\ b <= 47 THEN [t EXCEPT !.buf = Append(@, b)]
            ELSE IF b >= 48 /\ b <= 126 THEN DoEsc(t, b)
-           ELSE Bad(t, "esc_abort")
+           ELSE Bad(t, <<"esc_abort", <<>>>>)
       [] t.lx = "csi" ->
            IF b >= 48 /\ b <= 63
-           THEN IF \E k \in 1..Len(t.buf) : t.buf[k] < 48 THEN Bad(t, "csi_param_after_intermediate")
+           THEN IF \E k \in 1..Len(t.buf) : t.buf[k] < 48 THEN Bad(t, <<"csi_param_after_intermediate", <<>>>>)
                 ELSE [t EXCEPT !.buf = Append(@, b)]
            ELSE IF b >= 32 /\ b <= 47 THEN [t EXCEPT !.buf = Append(@, b)]
            ELSE IF b >= 64 /\ b <= 126 THEN DoCsi(t, b)
-           ELSE Bad(t, "csi_byte")
+           ELSE Bad(t, <<"csi_byte", <<>>>>)
       [] t.lx = "osc" ->
            IF b = 7 THEN DoOsc(t)
            ELSE IF b = ESC THEN [t EXCEPT !.lx = "oscEsc"]
-           ELSE IF b < 32 \/ b = 127 THEN Bad(t, "osc_control")
+           ELSE IF b < 32 \/ b = 127 THEN Bad(t, <<"osc_control", <<>>>>)
            ELSE [t EXCEPT !.buf = Append(@, b)]
       [] t.lx = "oscEsc" ->
-           IF b = 92 THEN DoOsc(t) ELSE Bad(t, "osc_unterminated")
+           IF b = 92 THEN DoOsc(t) ELSE Bad(t, <<"osc_unterminated", <<>>>>)
 
 Feed(t, bytes) == FoldLeft(Step, t, bytes)
 
 \* One Tty.Write block: stamped with a fresh number; the lexer must be back in ground state at its end.
 FeedBlock(t, bytes) ==
     LET t1 == Feed([t EXCEPT !.stamp = @ + 1], bytes)
-    IN IF t1.lx = "gnd" THEN t1 ELSE [t1 EXCEPT !.bad = @ \cup {<<"block_ends_inside", t1.lx>>}]
+    IN IF t1.lx = "gnd" THEN t1 ELSE [t1 EXCEPT !.bad = @ \cup {<<"block_ends_inside_" \o t1.lx, <<>>>>}]
 
 FeedBlocks(t, blocks) == FoldLeft(FeedBlock, t, blocks)
 
